@@ -31,3 +31,9 @@ check('C07', 'exploration', 'property-based testing: aliasing/cyclic object grap
       'resolve (Python snapshot and wire message), the object<->id relation found by a joint walk over names must be a '
       'bijection, and the table may not be larger than the set of distinct reachable objects.',
       'Identity claims only for objects the frame keeps alive; one known finding (watch `locals()`), see known_findings.json.')
+check('C10', 'exploration', 'property-based testing: expression grammar x hit histories, frame-scope eval oracle + reference limiter',
+      'Conditions from a grammar (boolean-valued over locals, host globals, builtins, helpers; blank; failing in every way) '
+      'gate 1-8 hits with per-hit state; expected collecting hits = reference limiter fed with the oracle\'s own truth '
+      'stream (rejected hits consume nothing). Watches, log fields, metric expressions and labels are compared with the '
+      'oracle\'s eval in the frame\'s own globals/locals; agent-only names must fail; failures must be error results.',
+      'Hits driven via trace_call on suspended-generator frames of a host module with its own globals.')
